@@ -585,6 +585,122 @@ theorem removeV_error_unchanged (c : Cache) (seq : Nat) (b e : Int) (hat : c.v.a
     simp only [hg] at herr
     exact absurd (remove_ok_of_guard_none c seq b e hg) herr
 
+/-! ### pinned `Remove`: an error followed by the documented recovery is a clean clear -/
+
+/-- clearing `seq` after the (possibly half-done) metadata loop of `Remove` gives, entry by entry, what
+    clearing the untouched cells gives -/
+theorem clear_after_removeCells (seq : Nat) (b e : Int) (hb : 0 ≤ b) (cells : List Cell) (rows : List Row)
+    (hpos : ∀ x ∈ cells, seq ∈ x.seqs → 0 ≤ x.pos) :
+    ((((removeCells seq b e (rmOffset b e) cells).1.map (rmInf seq 0)).zip rows).filterMap entryOf)
+      = (((cells.map (rmInf seq 0)).zip rows).filterMap entryOf) := by
+  induction cells generalizing rows with
+  | nil => simp [removeCells]
+  | cons c cs ih =>
+    have hc := hpos c (by simp)
+    have ih' := fun rows => ih rows (fun x hx => hpos x (by simp [hx]))
+    cases rows with
+    | nil => simp
+    | cons r rs =>
+      unfold removeCells
+      by_cases hs : seq ∈ c.seqs
+      · have hp := hc hs
+        have horig : rmInf seq 0 c = dropSeq seq c := by simp [rmInf, hs, hp]
+        simp only [hs, if_true]
+        by_cases hin : b ≤ c.pos ∧ c.pos < e
+        · simp only [hin, and_self, if_true, List.map_cons, List.zip_cons_cons, List.filterMap_cons]
+          have : rmInf seq 0 (dropSeq seq c) = dropSeq seq c := by
+            simp [rmInf, dropSeq]
+          rw [this, horig, ih' rs]
+        · simp only [hin, if_false]
+          by_cases hge : c.pos ≥ e
+          · simp only [hge, if_true]
+            by_cases hsh : sharedOther seq c.seqs = true
+            · simp [hsh]
+            · simp only [hsh, Bool.false_eq_true, if_false, List.map_cons, List.zip_cons_cons, List.filterMap_cons]
+              -- solely owned by `seq`: after the clear nobody owns it, whatever its position
+              have hnone : (c.seqs.filter (· ≠ seq)) = [] := by
+                rw [List.filter_eq_nil_iff]
+                intro x hx
+                simp only [sharedOther, Bool.not_eq_true] at hsh
+                have := List.any_eq_false.mp hsh x hx
+                simpa using this
+              have hoff : 0 ≤ c.pos + rmOffset b e := by
+                unfold rmOffset; split <;> omega
+              have h1 : entryOf (rmInf seq 0 { c with pos := c.pos + rmOffset b e }, r) = none := by
+                have : (rmInf seq 0 { c with pos := c.pos + rmOffset b e }).seqs = [] := by
+                  simp only [rmInf, hs, hoff, and_self, if_true, dropSeq]; exact hnone
+                unfold entryOf; simp only [this, if_true]
+              have h2 : entryOf (rmInf seq 0 c, r) = none := by
+                have : (dropSeq seq c).seqs = [] := hnone
+                rw [horig]; unfold entryOf; simp only [this, if_true]
+              rw [h1, h2, ih' rs]
+          · simp only [hge, if_false, List.map_cons, List.zip_cons_cons, List.filterMap_cons]
+            rw [ih' rs]
+      · simp only [hs, if_false, List.map_cons, List.zip_cons_cons, List.filterMap_cons]
+        rw [ih' rs]
+
+theorem posBound_removeCells (seq : Nat) (b e : Int) (hbe : b ≤ e) (cells : List Cell) (h : PosBound cells) :
+    PosBound (removeCells seq b e (rmOffset b e) cells).1 := by
+  induction cells with
+  | nil => simpa [removeCells] using h
+  | cons c cs ih =>
+    have hc : ∀ s ∈ c.seqs, c.pos < maxInt32 := h c (by simp)
+    have hcs : PosBound cs := fun x hx => h x (by simp [hx])
+    have ih' := ih hcs
+    have hoff : rmOffset b e ≤ 0 := by unfold rmOffset; split <;> omega
+    have cons_ok : ∀ (hd : Cell), (∀ s ∈ hd.seqs, hd.pos < maxInt32) →
+        PosBound (hd :: (removeCells seq b e (rmOffset b e) cs).1) := by
+      intro hd hhd x hx
+      rcases List.mem_cons.mp hx with rfl | hx
+      · exact hhd
+      · exact ih' x hx
+    unfold removeCells
+    split
+    · split
+      · exact cons_ok (dropSeq seq c) (fun s hs => hc s (mem_dropSeq hs).1)
+      · split
+        · split
+          · exact h
+          · exact cons_ok { c with pos := c.pos + rmOffset b e } (fun s hs => by have := hc s hs; simp only; omega)
+        · exact cons_ok c hc
+    · exact cons_ok c hc
+
+/-- **Pinned `Remove`, error path.**  Whatever a refused `Remove` (shared cells / no `shiftFn`) has already
+    changed, the recovery the `Cache` interface prescribes — `Remove(seq, 0, MaxInt32)` — leaves exactly the
+    abstract state that clearing the sequence *instead* would have left: the half-done removal is confined to
+    the sequence that must be cleared; no other sequence's entry, position or data is affected.
+    (positions of `seq` are ≥ 0 and < MaxInt32, `0 ≤ b ≤ e`) -/
+theorem refused_remove_then_clear (c : Cache) (seq : Nat) (b e : Int) (hb : 0 ≤ b) (hbe : b ≤ e)
+    (hpb : PosBound c.cells) (hpos : ∀ x ∈ c.cells, seq ∈ x.seqs → 0 ≤ x.pos)
+    (herr : (Causal.remove c seq b e).2 ≠ .ok) :
+    abs (Causal.remove (Causal.remove c seq b e).1 seq 0 maxInt32).1 = abs (Causal.remove c seq 0 maxInt32).1 := by
+  have hstate : (Causal.remove c seq b e).1.cells = (removeCells seq b e (rmOffset b e) c.cells).1 ∧
+      (Causal.remove c seq b e).1.rows = c.rows := by
+    unfold Causal.remove at herr ⊢
+    simp only at herr ⊢
+    split
+    · exact ⟨rfl, rfl⟩
+    · rename_i hfl
+      simp only [hfl, if_false] at herr
+      split
+      · rename_i hrg; simp [hrg] at herr
+      · rename_i hrg
+        simp only [hrg, if_false] at herr
+        split
+        · rename_i he; simp [he] at herr
+        · rename_i he
+          simp only [he, if_false] at herr
+          split
+          · exact ⟨rfl, rfl⟩
+          · rename_i hsf; simp [hsf] at herr
+  have hpb' : PosBound (Causal.remove c seq b e).1.cells := by
+    rw [hstate.1]; exact posBound_removeCells seq b e hbe c.cells hpb
+  obtain ⟨h1, h2, _⟩ := remove_inf (Causal.remove c seq b e).1 seq 0 hpb'
+  obtain ⟨g1, g2, _⟩ := remove_inf c seq 0 hpb
+  unfold abs
+  rw [h1, h2, g1, g2, hstate.1, hstate.2]
+  exact clear_after_removeCells seq b e hb c.cells c.rows hpos
+
 /-- one operation of a cache history -/
 inductive HOp where
   | fwd (b : List Tok) (ids : List Nat)
@@ -2368,5 +2484,14 @@ example :
     (f28 { atomicRemove := true }).v.atomicRemove = true ∧ (removeV (f28 { atomicRemove := true }) 0 1 2).2 ≠ .ok ∧
     removeGuard (f28 { atomicRemove := true }) 0 3 4 = none ∧ (removeV (f28 { atomicRemove := true }) 0 3 4).2 = .ok := by
   decide
+
+/-- non-vacuity of `refused_remove_then_clear`: the F28 state meets its hypotheses, the refused removal has
+    changed the state, and after the recovery sequence 1 still holds all four entries -/
+example :
+    (Causal.remove (f28 {}) 0 1 2).2 ≠ .ok ∧
+    (∀ x ∈ (f28 {}).cells, ∀ s ∈ x.seqs, x.pos < maxInt32) ∧ (∀ x ∈ (f28 {}).cells, 0 ∈ x.seqs → 0 ≤ x.pos) ∧
+    abs (Causal.remove (f28 {}) 0 1 2).1 ≠ abs (f28 {}) ∧
+    (abs (Causal.remove (Causal.remove (f28 {}) 0 1 2).1 0 0 maxInt32).1).map (fun e => (e.seqs, e.pos, e.id))
+      = [([1], 0, 10), ([1], 1, 11), ([1], 2, 12), ([1], 3, 13)] := by decide
 
 end OllamaVerif.C06
